@@ -21,6 +21,7 @@ mod c01;
 mod c02;
 mod tables;
 mod c07;
+mod c08;
 
 fn main() {
     util::silence_panics();
@@ -86,6 +87,7 @@ fn main() {
                 "C01" => c01::run(&params),
                 "C02" => c02::run(&params),
                 "C07" => c07::run(&params),
+                "C08" => c08::run(&params),
                 _ => { eprintln!("unknown property {}", id); std::process::exit(2); }
             };
             // the witnesses of this property run as part of every check (regression corpus)
